@@ -10,6 +10,14 @@
 // genuinely (tail "success"), or repeat the last fault forever ("repeat-last"), or repeat the
 // whole script forever ("cycle"); the two infinite tails are what makes "ends after a bounded
 // number of attempts" a real demand.
+//
+// Parts read-ts-cmds / ts-carriers (catalogue.go): the same exploration for every command that carries a
+// timestamp - discovered from the request types, not listed - through both entry points of the sender
+// (SendReqCtx, SendReqAsync), in every replica-read mode and for every class of timestamp (passes
+// validation / future / MaxUint64, which fails only for a stale read / future with validation off). The
+// clause "no read is sent whose timestamp failed validation" is judged per command and entry point
+// (keys read-sent-with-invalid-ts/<cmd>/<sync|async>), so a command that drops out of the validated set,
+// an entry point that skips the validation or a wrong stale-read flag handed to the validator is seen.
 package main
 
 import (
@@ -152,6 +160,7 @@ func judge(r *result) (outcome string, fs []finding) {
 	}
 
 	// --- every recorded attempt ---
+	wireInvalid := 0 // attempts whose timestamp on the wire fails validation
 	for _, at := range r.attempts {
 		target := at.Addr
 		if at.Forwarded != "" {
@@ -181,12 +190,35 @@ func judge(r *result) (outcome string, fs []finding) {
 		if at.K >= 1 && !at.Retry {
 			add("retry-marker-missing", at.K, "attempt %d (a re-send within one call) has IsRetryRequest=false", at.K)
 		}
-		if !cfg.isWrite() && cfg.TS != "future-novalidate" && !tsIsValid(at.ReadTS) {
+		if cfg.tsChecked() && cfg.TS != "future-novalidate" && !tsIsValid(at.ReadTS, cfg.entryStale()) {
+			wireInvalid++
+		}
+		// (commands of the catalogue are reported by the per-command class below only)
+		if cfg.tsChecked() && !strings.HasPrefix(cfg.Cmd, "cmd:") && cfg.TS != "future-novalidate" && !tsIsValid(at.ReadTS, cfg.entryStale()) {
 			add("invalid-read-ts-sent", at.K, "attempt %d sends read ts %d which the validator rejects", at.K, at.ReadTS)
 		}
 	}
 	if r.validator.rejected > 0 && cfg.TS != "future-novalidate" && (n > 0 || r.err == nil) {
 		add("ts-validation-ignored", 0, "validator rejected the read ts but the call made %d attempts, err=%v", n, r.err)
+	}
+	// The read-timestamp clause as a model: validation is enabled, the command is a read that carries a read
+	// timestamp (catalogue), and the timestamp it carries fails validation for the kind of read it is when it
+	// is handed to the sender (stale or not). Then nothing may be sent and the call must end with an error -
+	// whether or not the code consulted the validator. The class names the command and the entry point.
+	if cfg.tsChecked() && cfg.TS != "future-novalidate" && (wireInvalid > 0 || !tsIsValid(cfg.tsValue(), cfg.entryStale())) {
+		switch {
+		case n > 0:
+			fs = append(fs, finding{key: fmt.Sprintf("read-sent-with-invalid-ts/%s/%s", cfg.cmdName(), cfg.path()),
+				what: fmt.Sprintf("%s carries read ts %d (stale read: %v) which fails validation, yet %d attempt(s) reached a store (first: %s); the validator was consulted %d time(s); err=%v",
+					cfg.cmdName(), cfg.tsValue(), cfg.entryStale(), n, r.attempts[0].Addr, r.validator.calls, r.err)})
+		case r.err == nil && r.panicked == nil && r.capped == nil:
+			fs = append(fs, finding{key: fmt.Sprintf("invalid-read-ts-not-refused/%s/%s", cfg.cmdName(), cfg.path()),
+				what: fmt.Sprintf("%s carries read ts %d which fails validation; nothing was sent but the call returned no error", cfg.cmdName(), cfg.tsValue())})
+		}
+	}
+	if cfg.path() == "async" && r.asyncNoCallback && r.panicked == nil && r.capped == nil {
+		add("async-never-called-back", n, "SendReqAsync returned and the executor ran dry, but the callback was never invoked (%d attempts)", n)
+		return "no-callback", fs
 	}
 
 	// --- termination ---
@@ -256,7 +288,15 @@ func judge(r *result) (outcome string, fs []finding) {
 			break
 		}
 		got := payloadNonce(r.resp)
-		if n == 0 || !r.attempts[n-1].genuineOK || got != r.attempts[n-1].nonce {
+		genuine := n > 0 && r.attempts[n-1].genuineOK
+		if genuine {
+			if obj := r.attempts[n-1].respObj; obj != nil {
+				genuine = r.resp.Resp == obj // catalogue commands: the very message the store produced
+			} else {
+				genuine = got == r.attempts[n-1].nonce
+			}
+		}
+		if !genuine {
 			add("fabricated-success", n, "success payload %d was not produced by the store asked last (attempts %d)", got, n)
 			outcome = "success:fabricated"
 			break
@@ -266,7 +306,11 @@ func judge(r *result) (outcome string, fs []finding) {
 		if last.Forwarded != "" {
 			target = last.Forwarded
 		}
-		if r.rpcCtx == nil || r.rpcCtx.Addr != target || r.rpcCtx.Peer.GetId() != last.PeerID {
+		if cfg.path() == "async" {
+			if r.asyncAddr != target {
+				add("success-context-mismatch", n, "success of %q returned with the address %q", target, r.asyncAddr)
+			}
+		} else if r.rpcCtx == nil || r.rpcCtx.Addr != target || r.rpcCtx.Peer.GetId() != last.PeerID {
 			add("success-context-mismatch", n, "success of %q returned with an RPC context of another store", target)
 		}
 		outcome = fmt.Sprintf("success:%s@%s", roleOf(cfg.Topo, storeOfAddr(target)), target)
@@ -381,11 +425,45 @@ func makeBounds(thorough bool) bounds {
 		}
 		return
 	}
+	// read-ts-cmds: the read-timestamp clause for EVERY read that carries a read timestamp (catalogue.go: the
+	// set is discovered from the request types, it is a superset of the commands the original validateReadTS
+	// listed) x both entry points of the sender x every replica-read mode (stale and non-stale reads) x a
+	// timestamp that passes validation / lies in the future / is MaxUint64 (passes unless the read is a stale
+	// read) / lies in the future with validation switched off.
+	// ts-carriers: every other command with a timestamp (transactional writes, the excluded debug read), both
+	// entry points, every mode: the flag rules for all write commands, and the measured list of commands for
+	// which the code consults the validator (asserted to be a subset of the harness's read set).
+	perCmd := func(es []*cmdEntry, tss []string, lives []liveFwd, rnds []int) (out []config) {
+		for _, rnd := range rnds {
+			for _, e := range es {
+				for _, path := range []string{"sync", "async"} {
+					for _, mode := range modes {
+						for _, lf := range lives {
+							for _, ts := range tss {
+								out = append(out, config{Topo: "3v", Mode: mode, Opt: "none", Cmd: "cmd:" + e.Name, Path: path, Live: lf.live, Fwd: lf.fwd,
+									TS: ts, Budget: 20000, Slow: "none", Rnd: rnd})
+							}
+						}
+					}
+				}
+			}
+		}
+		return
+	}
+	var others []*cmdEntry
+	for _, e := range catalogue.carriers {
+		if !e.isRead() {
+			others = append(others, e)
+		}
+	}
+	tsAll := []string{"valid", "future", "max", "future-novalidate"}
 	var b bounds
 	if !thorough {
 		b.parts = []*part{
 			{Name: "main", F: 2, alphabet: core, configs: base.product()},
 			{Name: "read-ts", F: 1, alphabet: core, configs: probes(base.cmds)},
+			{Name: "read-ts-cmds", F: 1, alphabet: core, configs: perCmd(catalogue.reads, tsAll, []liveFwd{{"all", false}}, []int{0})},
+			{Name: "ts-carriers", F: 0, alphabet: core, configs: perCmd(others, []string{"valid", "future"}, []liveFwd{{"all", false}}, []int{0})},
 		}
 	} else {
 		wide := base
@@ -410,6 +488,8 @@ func makeBounds(thorough bool) bounds {
 			{Name: "deep", F: 3, alphabet: core, configs: deep.product()},
 			{Name: "wide", F: 2, alphabet: all, configs: wide.product()},
 			{Name: "read-ts", F: 1, alphabet: all, configs: probes(wide.cmds)},
+			{Name: "read-ts-cmds", F: 2, alphabet: all, configs: perCmd(catalogue.reads, tsAll, []liveFwd{{"all", false}, {"leader-down-known", true}}, []int{0, 1})},
+			{Name: "ts-carriers", F: 1, alphabet: all, configs: perCmd(others, []string{"valid", "future", "max"}, []liveFwd{{"all", false}}, []int{0, 1})},
 		}
 	}
 	ord := 0
@@ -428,6 +508,9 @@ type stats struct {
 	outcomes                                            map[string]int64
 	paths                                               map[uint64]struct{}
 	byPart                                              map[string]int64 // runs per part
+	byCmdPath                                           map[string]int64 // catalogue commands: runs per command/entry point
+	refused                                             map[string]int64 // command/entry point: runs that ended with no attempt because the read ts failed validation
+	validated                                           map[string]int64 // CmdType name: runs in which the code consulted the validator
 }
 
 type best struct {
@@ -528,6 +611,16 @@ func (wk *worker) one(id caseID) int {
 	n := len(r.attempts)
 	wk.st.runs++
 	wk.st.byPart[wk.part]++
+	if cfg := id.Cfg; strings.HasPrefix(cfg.Cmd, "cmd:") {
+		cp := cfg.cmdName() + "/" + cfg.path()
+		wk.st.byCmdPath[cp]++
+		if len(r.attempts) == 0 && r.validator.rejected > 0 {
+			wk.st.refused[cp]++
+		}
+	}
+	if r.validator != nil && r.validator.calls > 0 {
+		wk.st.validated[id.Cfg.cmdName()]++
+	}
 	wk.st.transitions += int64(n)
 	if int64(n) > wk.st.maxAttempts {
 		wk.st.maxAttempts = int64(n)
@@ -587,8 +680,24 @@ func (wk *worker) explore(pt *part, cfg config, prefix []answer) {
 		return
 	}
 	for _, a := range pt.alphabet {
+		if !answerPossible(cfg, a) {
+			continue
+		}
 		wk.explore(pt, cfg, append(prefix[:len(prefix):len(prefix)], a))
 	}
+}
+
+// answerPossible: a store can give the answer to the command. A region error needs a response type that can
+// carry one; tikvrpc.GenRegionErrorResp knows none for a few commands (BatchCop: the stream wrapper has no
+// region error), for those only the transport level answers remain.
+func answerPossible(cfg config, a answer) bool {
+	if !strings.HasPrefix(cfg.Cmd, "cmd:") {
+		return true
+	}
+	if e := cfg.entry(); e != nil && !e.RegionErrOK {
+		return a == aRPCErr || a == aDeadline || a == aGRPCCanceled
+	}
+	return true
 }
 
 // processCPU returns the user+system CPU seconds consumed by this process.
@@ -632,6 +741,7 @@ func (x *explorer) phase(rnd int, jobs []job) {
 	for i := range workers {
 		wk := &worker{x: x, w: newWorld()}
 		wk.st.outcomes, wk.st.paths, wk.st.byPart = map[string]int64{}, map[uint64]struct{}{}, map[string]int64{}
+		wk.st.byCmdPath, wk.st.refused, wk.st.validated = map[string]int64{}, map[string]int64{}, map[string]int64{}
 		workers[i] = wk
 		wg.Add(1)
 		go func() {
@@ -714,6 +824,15 @@ func (x *explorer) phase(rnd int, jobs []job) {
 		}
 		for k, v := range wk.st.byPart {
 			x.total.byPart[k] += v
+		}
+		for k, v := range wk.st.byCmdPath {
+			x.total.byCmdPath[k] += v
+		}
+		for k, v := range wk.st.refused {
+			x.total.refused[k] += v
+		}
+		for k, v := range wk.st.validated {
+			x.total.validated[k] += v
 		}
 		for k := range wk.st.paths {
 			x.total.paths[k] = struct{}{}
@@ -822,7 +941,46 @@ func (x *explorer) finish(early bool) {
 		partInfo = append(partInfo, map[string]any{"part": pt.Name, "F": pt.F, "alphabet": names(pt.alphabet), "configurations": len(pt.configs),
 			"budgets_ms": budgetsOf(pt.configs), "scripts_x_tails_per_configuration_full_space": full, "runs_executed": x.total.byPart[pt.Name]})
 	}
+	// The catalogue of reads against what the code does: the harness's read set must be a superset of the
+	// commands for which the running code consults the validator.
+	readSet := map[string]bool{}
+	for _, e := range catalogue.reads {
+		readSet[e.Name] = true
+	}
+	var validatedByCode, outside, fromFloor []string
+	for name := range x.total.validated {
+		validatedByCode = append(validatedByCode, name)
+		if !readSet[name] {
+			outside = append(outside, name)
+		}
+	}
+	sort.Strings(validatedByCode)
+	sort.Strings(outside)
+	if len(outside) > 0 {
+		x.run.Incomplete(fmt.Sprintf("the code consults the read-ts validator for %v, which catalogue.go does not class as reads with a read timestamp: the harness's read set is no longer a superset of the validated commands", outside))
+	}
+	var carriers []map[string]any
+	for _, e := range catalogue.carriers {
+		carriers = append(carriers, map[string]any{"cmd": e.Name, "message": e.ReqT.String(), "ts_field": e.Field, "write": e.Write,
+			"excluded": e.Excluded, "read_with_read_ts": e.isRead(), "floor": e.Floor, "region_error_expressible": e.RegionErrOK})
+		if e.FromFloor {
+			fromFloor = append(fromFloor, e.Name)
+		}
+	}
+	catInfo := map[string]any{
+		"named_cmd_types":                          catalogue.named,
+		"timestamp_carriers":                       carriers,
+		"reads_with_read_ts":                       entryNames(catalogue.reads),
+		"floor_commands_missing_from_discovery":    fromFloor,
+		"commands_for_which_the_code_validates":    validatedByCode,
+		"validated_outside_the_read_set":           outside,
+		"runs_per_command_and_entry_point":         x.total.byCmdPath,
+		"runs_refused_before_any_send_per_command": x.total.refused,
+		"entry_points":                             []string{"sync=SendReqCtx", "async=SendReqAsync"},
+		"ts_classes":                               []string{"valid", "future", "max (MaxUint64: invalid only for a stale read)", "future-novalidate"},
+	}
 	cov := ev.Coverage{
+		"read_ts_catalogue":                       catInfo,
 		"states":                                  x.total.runs,
 		"transitions":                             x.total.transitions,
 		"traces_validated_against_impl":           x.total.runs,
@@ -837,13 +995,16 @@ func (x *explorer) finish(early bool) {
 		"prefixes_not_extended":                   x.total.pruned,
 		"rule": "states = executed (configuration, script, tail) triples, all distinct; transitions = RPC attempts made by the real sender; " +
 			"scripts are enumerated depth first over the alphabet and extended only while the call consumes the whole script " +
-			"(a longer script with the same prefix is then the same run); non-trivial = at least 2 attempts or a non-success end",
+			"(a longer script with the same prefix is then the same run); non-trivial = at least 2 attempts or a non-success end; " +
+			"parts read-ts-cmds / ts-carriers: one configuration per (command of the catalogue, entry point SendReqCtx|SendReqAsync, replica-read mode, " +
+			"timestamp class, liveness), the commands being discovered from the request types (every CmdType x every accessor message type x every " +
+			"uint64 field that GetStartTS returns), not listed by hand",
 		"bounds": map[string]any{"parts": partInfo, "tails": []string{tailSuccess, tailRepeat, tailCycle},
 			"configurations": nConfigs, "fast_resend_cap": x.fastCap},
 		"samples": x.samples.List(),
 	}
 	x.run.Finish(cov, []string{
-		"one SendReqCtx call per run on a fresh RegionCache/RegionRequestSender; one region on stores 1-3 (leader on store 1), store 4 hosts no peer",
+		"one SendReqCtx call (configurations with path=async: one SendReqAsync call) per run on a fresh RegionCache/RegionRequestSender; one region on stores 1-3 (leader on store 1), store 4 hosts no peer",
 		"back-off does not sleep (failpoint tikvclient/fastBackoffBySkipSleep); the Backoffer accounts the sleep as usual; jitter is deterministic (max in phase rnd=0, min in rnd=1)",
 		"replica tie-break randomness is replaced by first (rnd=0) / last (rnd=1) candidate, the same choice at every tie of a run",
 		"the cache's background tickers are stopped before the call; a store found unreachable stays unreachable for the rest of the call",
@@ -851,6 +1012,9 @@ func (x *explorer) finish(early bool) {
 		"answers are not filtered for plausibility (any store may give any answer); the oracle demands only termination, budget, result genuineness and the three flag rules",
 		"write commands are combined with every replica-read mode the request API lets a caller set (SetReplicaReadType, EnableStaleWithMixedReplicaRead), as the property quantifies over modes x commands; the repository's own tests call write+replica-read 'unsupported'",
 		"the 3-voter and the 2-voter+learner layouts are the only region layouts; region epochs/ranges never change during a call except through the scripted EpochNotMatch answers",
+		"a 'read that carries a read timestamp' is every command whose message has a uint64 field returned by Request.GetStartTS and which is neither a transactional/raw write (IsTxnWriteRequest/IsRawWriteRequest) nor MvccGetByStartTs (debug lookup by a transaction's start ts); the implicit reads of write commands (the TODO in validateReadTS) are not demanded; requests to TiDB/TiFlash endpoints are not sent",
+		"the validator is scripted: a timestamp <= now is valid, a later one is not, MaxUint64 is valid unless the request is a stale read when handed to the sender (as in pdOracle.ValidateReadTS); the oracle does not demand that the validator is consulted, only that nothing is sent and an error is returned when the verdict for (timestamp, stale-or-not at entry) is 'invalid'",
+		"asynchronous entry point: the executor runs Go(f) inline and drains scheduled callbacks after SendReqAsync returned (one legal schedule, single goroutine); commands whose response type cannot carry a region error (BatchCop) get transport-level faults only",
 	})
 }
 
@@ -935,14 +1099,28 @@ func main() {
 	run := ev.Start("C10", "model_checking")
 	x := &explorer{run: run, b: makeBounds(run.Thorough()), fastCap: fastCapOf(), samples: ev.NewSamples(6, run.Seed), viol: map[string]*best{}}
 	x.total.outcomes, x.total.paths, x.total.byPart = map[string]int64{}, map[uint64]struct{}{}, map[string]int64{}
+	x.total.byCmdPath, x.total.refused, x.total.validated = map[string]int64{}, map[string]int64{}, map[string]int64{}
+	for _, p := range catalogue.problems {
+		run.Note("catalogue: %s", p)
+	}
 	stride := 1 // sizing aid only: VERIF_C10_STRIDE=k explores every k-th configuration (evidence says exhaustive:false)
 	if v, err := strconv.Atoi(os.Getenv("VERIF_C10_STRIDE")); err == nil && v > 1 {
 		stride = v
 		run.Incomplete(fmt.Sprintf("VERIF_C10_STRIDE=%d: only every %d-th configuration explored", v, v))
 	}
+	onlyParts := map[string]bool{} // sizing aid only: VERIF_C10_PARTS=a,b explores the named parts only (evidence says exhaustive:false)
+	if v := os.Getenv("VERIF_C10_PARTS"); v != "" {
+		for _, n := range strings.Split(v, ",") {
+			onlyParts[n] = true
+		}
+		run.Incomplete("VERIF_C10_PARTS=" + v + ": only these parts explored")
+	}
 	for rnd := 0; rnd < 2; rnd++ {
 		var jobs []job
 		for _, pt := range x.b.parts {
+			if len(onlyParts) > 0 && !onlyParts[pt.Name] {
+				continue
+			}
 			for _, c := range pt.configs {
 				if c.ord%stride != 0 {
 					continue
